@@ -403,6 +403,15 @@ func (o *Oracle) checkConvergence() {
 		cv.done = true
 		v := w.violate("C12", "C12/no-convergence", "%v after all faults stopped (bound %v): %s", elapsed.Round(time.Millisecond), cv.bound, missing)
 		v.Facts["missing"] = strings.SplitN(missing, ":", 2)[0]
+		// a server that holds an uncommitted configuration in which it is no longer a voter
+		// (it demoted or removed itself while cut off) neither campaigns nor grants its vote
+		stuck := false
+		for _, inc := range w.liveIncs() {
+			if _, cidx, latest, lidx := inc.r.VerifConfigurations(); lidx > cidx && !isVoter(latest, inc.node.id) {
+				stuck = true
+			}
+		}
+		v.Facts["server_holds_uncommitted_config_without_its_own_vote"] = fmt.Sprint(stuck)
 		w.ended = true
 	}
 }
